@@ -13,7 +13,11 @@ package main
 //
 // MODELLED INDEX ARITHMETIC (exact equality with the extracted Gallina model), see models.go:
 //   30 cut filter | 31 trim_to filter | 32 trim filter | 33 re filter (regexp = oracle) | 34 parse_re2 |
-//   35 convert_utf8_bytes | 36 hash normaliser (bracket / quote tokenizer) | 37 split | 38 json_extract
+//   35 convert_utf8_bytes | 36 hash normaliser (bracket / quote tokenizer) | 37 split | 38 json_extract |
+//   39 hash | 40, 41 modify
+// TREE-LEVEL MODELS of the plugins that are pure insane-json mutations and library calls, see extra.go / extragen.go:
+//   42 rename | 43 move | 44 flatten | 45 json_encode | 46 json_decode | 47 convert_log_level |
+//   48 set_time, add_host, add_file_name, convert_date, discard, debug | 49 parse_es, cardinality (event sequences)
 
 import (
 	"encoding/hex"
